@@ -43,7 +43,9 @@ def ft_sh_phase_screen(r0, N, delta, L0, l0, FFT=None, seed=None):
 
     D = N * delta
     # high-frequency screen from FFT method
-    phs_hi = ft_phase_screen(r0, N, delta, L0, l0, FFT, seed=seed)
+    # (drawn from R too: a second generator made from the same integer seed would hand the
+    # sub-harmonics the very deviates the high-frequency screen has already used)
+    phs_hi = ft_phase_screen(r0, N, delta, L0, l0, FFT, seed=R)
 
     # spatial grid [m]
     coords = numpy.arange(-N/2,N/2)*delta
